@@ -359,3 +359,23 @@ Proof.
   - pose proof (read_weights_inner_terminates (le_dec [c0; c1]) dec_f64 s2 Hc) as H.
     destruct (read_weights_inner (le_dec [c0; c1]) dec_f64 s2); try discriminate. congruence.
 Qed.
+
+(* ---- the boolean equalities used by the run-time checker decide equality ---- *)
+
+Lemma leqb_eq {T} (eqb : T -> T -> bool) :
+  (forall x y, eqb x y = true <-> x = y) -> forall a b, leqb eqb a b = true <-> a = b.
+Proof.
+  intros He. induction a as [|x a IH]; intros [|y b]; cbn [leqb]; split; intros H;
+    try discriminate; try reflexivity.
+  - apply andb_prop in H as [H1 H2]. apply He in H1. apply IH in H2. congruence.
+  - injection H as -> ->. apply andb_true_intro. split; [now apply He|now apply IH].
+Qed.
+
+Lemma warray_eqb_eq a b : warray_eqb a b = true <-> a = b.
+Proof.
+  destruct a as [x|x], b as [y|y]; cbn [warray_eqb]; unfold rows_eqb.
+  - rewrite (leqb_eq (leqb Z.eqb) (leqb_eq Z.eqb Z.eqb_eq)). split; congruence.
+  - split; discriminate.
+  - split; discriminate.
+  - rewrite (leqb_eq (leqb N.eqb) (leqb_eq N.eqb N.eqb_eq)). split; congruence.
+Qed.
